@@ -987,6 +987,28 @@ def state_roundtrip(ctx, res):
                 ix = strip(r.ch[1])
                 if t.kind == "DeclRefExpr" and ix.kind == "DeclRefExpr":
                     via_local[ix.ref] = (f, t.ref)
+    # a destination may be a local that is committed to the trait only after
+    # the whole state was validated: `trait->F = L` or `h(&trait->F, L)`
+    # (h an in-file setter helper); the local then stands for that field
+    local_field = {}
+    restoring_stores = set()
+    for x in ss.walk():
+        if x.kind == "BinaryOperator" and x.op == "=":
+            f = _trait_field(x.ch[0])
+            r = strip(x.ch[1])
+            if f and r is not None and r.kind == "DeclRefExpr" \
+                    and r.refkind in ("VarDecl", None) and r.ref:
+                local_field.setdefault(r.ref, set()).add(f)
+                restoring_stores.add(id(x))
+        elif x.kind == "CallExpr" and facts.has_func(callee(x)) \
+                and len(x.ch) == 3:
+            a0, a1 = strip(x.ch[1]), strip(x.ch[2])
+            if a0 is not None and a0.kind == "UnaryOperator" and a0.op == "&" \
+                    and a1 is not None and a1.kind == "DeclRefExpr":
+                f = _trait_field(strip(a0.ch[0]))
+                if f:
+                    local_field.setdefault(a1.ref, set()).add(f)
+    parsed_locals = {}
     for i, (ch, d) in enumerate(zip(chars, dests)):
         if i not in written:
             break
@@ -1002,6 +1024,10 @@ def state_roundtrip(ctx, res):
                 target = ("field", f)
             elif inner.kind == "DeclRefExpr":
                 target = ("local", inner.ref)
+                flows = local_field.get(inner.ref, set())
+                if desc[0] in ("obj", "int", "uint") and len(flows) == 1:
+                    target = ("field", next(iter(flows)))
+                    parsed_locals[inner.ref] = target[1]
         if target is None:
             raise AnalysisError(f"_trait_setstate: destination {i} "
                                 f"`{cnorm(d)}` not recognised")
@@ -1041,6 +1067,13 @@ def state_roundtrip(ctx, res):
         if x.kind in ("BinaryOperator", "CompoundAssignOperator") \
                 and x.op.endswith("=") and x.op not in ("==", "!=", "<=", ">="):
             f = _trait_field(x.ch[0])
+            l = strip(x.ch[0])
+            if f is None and l is not None and l.kind == "DeclRefExpr" \
+                    and l.ref in parsed_locals:
+                f = parsed_locals[l.ref]    # the local standing for the field
+            elif id(x) in restoring_stores and strip(x.ch[1]).ref in parsed_locals \
+                    and parsed_locals[strip(x.ch[1]).ref] == f:
+                continue                    # the restoring store itself
             if f not in scalars:
                 continue
             key = f"_trait_setstate:alters:{f}"
